@@ -216,7 +216,7 @@ PLANS = {
         "rule": "one probe per forked case in the ASan/UBSan+assert build and in the NDEBUG+sanitizer build: ColoquinteParameters(e) for "
                 "every e in [-16,32] (exhaustive window) and INT_MIN/INT_MAX/random 32-bit values (throws iff e outside 1..9, e in 1..9 "
                 "passes check()); 67 single out-of-range parameter assignments x 3 entry points (exhaustive) and random combinations "
-                "(must throw, zero callbacks, circuit identical); 12 vector setters x lengths n-1, n+1, 0; malformed nets (length "
+                "(must throw, zero callbacks, circuit identical); randomised probes: a random ACCEPTED parameter set with exactly one of 47 documented constraints violated by a random amount (independent model of the ranges); 12 vector setters x lengths n-1, n+1, 0; malformed nets (length "
                 "mismatches, pin cells -1, n, INT_MAX, INT_MIN, inconsistent limits) via addNet/setNets followed by check / hpwl / "
                 "placement / report: an error must be raised before any work; every case non-trivial; distinct = probe identity",
         "assumptions": ["NaN parameter values are not rejected by the parameter check and are out of scope"],
@@ -224,6 +224,7 @@ PLANS = {
                  R("h_invalid", "asan", "c19.effort.random", 400, 2000), R("h_invalid", "ndebug", "c19.effort.random", 400, 2000),
                  R("h_invalid", "asan", "c19.params.single", 201, 603, exhaustive=True), R("h_invalid", "ndebug", "c19.params.single", 201, 603, exhaustive=True),
                  R("h_invalid", "asan", "c19.params.combo", 600, 6000), R("h_invalid", "ndebug", "c19.params.combo", 300, 3000),
+                 R("h_invalid", "asan", "c19.params.random", 6000, 60000), R("h_invalid", "ndebug", "c19.params.random", 3000, 30000),
                  R("h_invalid", "asan", "c19.setters", 360, 3600), R("h_invalid", "ndebug", "c19.setters", 360, 3600),
                  R("h_invalid", "asan", "c19.nets", 960, 9600), R("h_invalid", "ndebug", "c19.nets", 960, 9600)],
     },
